@@ -1,4 +1,4 @@
-package main
+package c09
 
 // C09 — correspondence: the custom marshallers / decoders of package types vs Model/Marshal.lean.
 //
